@@ -411,6 +411,60 @@ pub fn udp(src: &Ip, dst: &Ip, sport: u16, dport: u16, payload: &[u8]) -> Vec<u8
     udp_raw(src, dst, sport, dport, payload, None)
 }
 
+/// Recompute the IPv4 header checksum and the TCP / UDP checksum of a frame in place, as a real
+/// sender would after changing a header field (no-op when the frame's lengths are inconsistent).
+pub fn refresh_checksums(frame: &mut [u8]) {
+    if frame.len() < 34 {
+        return;
+    }
+    let et = u16::from_be_bytes([frame[12], frame[13]]);
+    let (l4, proto, src, dst) = if et == ET_IP4 {
+        let ihl = (frame[14] & 0x0f) as usize * 4;
+        if frame[14] >> 4 != 4 || ihl < 20 || frame.len() < 14 + ihl {
+            return;
+        }
+        frame[24] = 0;
+        frame[25] = 0;
+        let c = inet_csum(&[&frame[14..14 + ihl]]);
+        frame[24..26].copy_from_slice(&c.to_be_bytes());
+        let tl = u16::from_be_bytes([frame[16], frame[17]]) as usize;
+        if tl < ihl || 14 + tl != frame.len() {
+            return;
+        }
+        let mut s = [0u8; 4];
+        s.copy_from_slice(&frame[26..30]);
+        let mut d = [0u8; 4];
+        d.copy_from_slice(&frame[30..34]);
+        (14 + ihl, frame[23], Ip::V4(s), Ip::V4(d))
+    } else if et == ET_IP6 && frame.len() >= 54 {
+        let pl = u16::from_be_bytes([frame[18], frame[19]]) as usize;
+        if 54 + pl != frame.len() {
+            return;
+        }
+        let mut s = [0u8; 16];
+        s.copy_from_slice(&frame[22..38]);
+        let mut d = [0u8; 16];
+        d.copy_from_slice(&frame[38..54]);
+        (54, frame[20], Ip::V6(s), Ip::V6(d))
+    } else {
+        return;
+    };
+    let n = frame.len() - l4;
+    let off = match proto {
+        P_TCP if n >= 20 => 16,
+        P_UDP if n >= 8 => 6,
+        _ => return,
+    };
+    frame[l4 + off] = 0;
+    frame[l4 + off + 1] = 0;
+    let ps = pseudo(&src, &dst, proto, n);
+    let mut c = inet_csum(&[&ps, &frame[l4..]]);
+    if proto == P_UDP && c == 0 {
+        c = 0xffff;
+    }
+    frame[l4 + off..l4 + off + 2].copy_from_slice(&c.to_be_bytes());
+}
+
 /// A client/server endpoint pair used to build complete frames.
 #[derive(Clone, Debug, PartialEq, Eq, Hash)]
 pub struct Flow {
